@@ -200,6 +200,11 @@ theorem selection_tied :
     Generated.Rle.selCatches = ["ImportError"] ∧ Generated.Rle.selHandlerImports = ["rle"] ∧
     Generated.Rle.selOtherStatements = 0 ∧ Generated.Rle.selUnboundInHandler = [] := by decide
 
+/-- `rle.py` keeps nothing between calls (regenerated from its AST: no `global`, no module-level mutable object
+read by a function, no memoising decorator, no mutable default): the model's `encPy`/`decPy` are functions of
+their arguments, so a result cannot be changed by a later call. -/
+theorem rle_stateless_tied : Generated.Rle.rleModuleState = [] := by decide
+
 /-- Whatever the configuration (extension importable or not), the selected implementation honours the whole
 contract, and the two configurations are indistinguishable. -/
 theorem selected_honours_contract (cfg : Bool) (d e : Bytes) (n : Nat) :
